@@ -505,3 +505,46 @@ def check_C18(ctx):
                             "library output computed in-process; only the value of dateCreated is masked (checked to be RFC 3339 within the run window)")
     ctx.assumptions += ["a read-only output file cannot be produced as root in this sandbox: that prior state exists only in the model"]
     return conclude(ctx, broken, trusted=TRUST_COMMON + ["os.OpenFile/os.Create/WriteString semantics (modelled by opened/writeAt0)"])
+
+
+# ------------------------------------------------------------------ C16
+
+C16_THEOREMS = ["Acv.C16.doc_eq_table", "Acv.C16.accepts_whole", "Acv.C16.runStart_whole", "Acv.C16.table_endsWithEOF",
+                "Acv.C16.old_truncates", "Acv.C16.new_rejects_junk", "Acv.C16.table_isPath", "Acv.C16.render_parseFull",
+                "Acv.C16.render_parse", "Acv.C16.ws_insensitive", "Acv.C16.spells_render"]
+
+
+def cmp_c16(case, i, m):
+    if "error" in m:
+        return ("model-error", "model driver rejected the case: " + m["error"])
+    if i.get("result") == "PANIC":
+        return ("panic", f"ParsePath({case['text']!r}) panicked: {str(i.get('err'))[:150]}")
+    if i.get("result") != m.get("result"):
+        return ("parse", f"ParsePath({case['text']!r}) = {i.get('result')} but the documented grammar gives {m.get('result')}")
+    return None
+
+
+def check_C16(ctx):
+    broken = []
+    try:
+        build_harness()
+        run_extract()
+    except Broken as b:
+        return conclude(ctx, [b])
+    broken += prove(ctx, "Acv.Props.C16", C16_THEOREMS)
+    try:
+        if ctx.quick():
+            lines, impl, model = corr(ctx, "c16", 150, cmp_c16)
+        else:
+            lines, impl, model = corr(ctx, "c16", 1500, cmp_c16, extra=("exhaustive",))
+        acc = sum(1 for i in impl if i.get("result") not in ("REJECT", "PANIC"))
+        ctx.coverage["streams"]["c16"]["accepted"] = acc
+        ctx.coverage["streams"]["c16"]["rejected"] = len(impl) - acc
+        ctx.coverage["distinct_nontrivial"] = len(set(json.loads(l)["text"] for l in lines))
+        ctx.oblige("correspondence:real ParsePath vs PEG model over the regenerated table (sentences in whitespace/parenthesis variants and their single-edit mutations)", not ctx.violations)
+    except Broken as b:
+        broken.append(b)
+    ctx.coverage["rule"] = ("a fixed list of boundary strings with ALL their single-edit mutations (insert/delete/replace/transpose over the path alphabet incl. non-ASCII), "
+                            "random sentences of the grammar (depth<=4) with random optional whitespace and redundant parentheses, and 25 (quick) or all (thorough) single-edit mutations of each; compared: accept/reject and the parsed structure")
+    ctx.assumptions += ["the ~1200-line pigeon runtime inside peg.go is modelled by the generic PEG interpreter (Acv/Model/Peg.lean); the semantic actions onExpression1/onTerm1/onFactor*/onIri1 are hand-modelled; both are tied by this correspondence"]
+    return conclude(ctx, broken, trusted=TRUST_COMMON + ["grammar-table translators for peg.go and propertyparser.peg (harness/extract_peg.go)"])
